@@ -229,3 +229,44 @@ def silent_lits(fn, prog, node):
         tk = (fn.blocks[bid].get("t") or {}).get("k")
         out.append((bid, t, a, tk in ("for", "while", "do")))
     return out
+
+
+def depends_on(fn, e, pred, depth=3):
+    """expression e - looking through locals of fn to the expressions assigned to them, `depth`
+    levels - contains a node satisfying pred.  Used wherever a rule asks "does this argument come
+    from X": hoisting a sub-expression into a local must not change the verdict."""
+    seen = set()
+
+    def rec(x, d):
+        if not isinstance(x, dict):
+            return False
+        for y in T.walk(x):
+            if isinstance(y, dict) and pred(y):
+                return True
+        if d <= 0:
+            return False
+        for v in T.vars_in(x):
+            if v in seen:
+                continue
+            seen.add(v)
+            for n in fn.events("S"):
+                if T.path(n.ev["lhs"]) == v and T.strip(n.ev["lhs"]).get("k") == "v" and isinstance(n.ev.get("rhs"), dict):
+                    if rec(n.ev["rhs"], d - 1):
+                        return True
+        return False
+    return rec(e, depth)
+
+
+def call_reaches(prog, fn, call, direct, depth=2):
+    """the call `call` in fn performs `direct(f, node)` itself, or is a call to a function (followed
+    `depth` levels through direct callees) one of whose nodes does.  `direct` decides on single nodes, so
+    callers can make it as precise as they need (e.g. "a block walk whose callback frees blocks")."""
+    if direct(fn, call):
+        return True
+    if depth <= 0:
+        return False
+    for g in prog.callees(fn, call.ev["x"], weak=False):
+        for n in g.call_nodes():
+            if call_reaches(prog, g, n, direct, depth - 1):
+                return True
+    return False
